@@ -251,12 +251,29 @@ def main(ctx: Ctx) -> int:
         if len(net.reaction_list) != len(case["declared"]):
             ctx.violation(f"{pid}|Read|count", f"{len(case['declared'])} data lines gave {len(net.reaction_list)} reactions", {"files": case["files"]})
             continue
-        for phase in (0, 1):
+        for phase in (0, 1, 2):
+            if phase == 2:
+                # the network is EDITED (a reaction without index appended), re-indexed explicitly, and modifiers are then given by the new
+                # indices -- one of them a number that was a FILE index of another reaction before: exactly the reactions that carry those
+                # indices now are overridden
+                if not (ci % 4 == 3 and not case["mods"] and any(dd["idx"] >= 0 for dd in case["declared"])):
+                    continue
+                from naunet.reactions.reaction import Reaction
+                from naunet.reactiontype import ReactionType
+                net.add_reaction(Reaction(["H", "H"], ["H2"], alpha=7.7e-18, reaction_type=ReactionType.GAS_TWOBODY))
+                net.reindex()
+                decl2 = [dict(dd, idx=pos_) for pos_, dd in enumerate(list(case["declared"]) + [{"tmin": -100, "tmax": -100, "idx": -1, "fmt": "api"}])]
+                n_ = len(decl2)
+                old = sorted({dd["idx"] for dd in case["declared"] if 0 <= dd["idx"] < n_ and decl2[dd["idx"]] is not None})
+                keys = {n_ - 1} | set(old[-1:])
+                mods2 = {k_: f"{4.2 + j_}e-7 * zeta" for j_, k_ in enumerate(sorted(keys))}
+                net.rate_modifier = dict(mods2)
+                case = dict(case, declared=decl2, mods=mods2, files=case["files"] + [("edit", f"one reaction appended, reindex(), rate_modifier {mods2}")])
             if phase == 1:
                 # the SAME Reaction objects get other windows (assigned in place) and the network is rendered again in this process: every
                 # guard must follow the window the reaction has NOW
                 if not (ci % 4 == 1 and not case["mods"] and net.reaction_list):
-                    break
+                    continue
                 decl2 = []
                 for rr, dd in zip(net.reaction_list, case["declared"]):
                     lo, hi = rng.choice(WINDOWS)
